@@ -413,6 +413,31 @@ def check(run: Run) -> None:
             else:
                 f0, c0 = stops[0]
                 run.sample({"rule": "C14.f", "owner": tu, "callback": cb, "reaches": f"{f0.fd.qual}: {R.Canon()(c0)}"})
+                # the first hop towards stop() is taken on EVERY normal path of the callback, except under per-child existence guards
+                stop_fns = {f.fd.qual for f, c in stops}
+                hop_names = set()
+                for f, c in reach:
+                    if f is fa:
+                        nm = R.callee_name(c)
+                        if nm == "stop" and (f, c) in stops:
+                            hop_names.add("stop")
+                        else:
+                            tgt = ({"remove_slot": "on_remove"}.get(nm, nm) if tu == "mesh_node.cpp" else nm)
+                            sub = [R.parse(run, fd2, strict=False) for fd2 in t.funcs(rel, tgt)] if tgt and tgt in t.read(rel) else []
+                            for sf in sub:
+                                inner = R.call_closure(run, sf, [rel], depth=2, dispatch={"remove_slot": "on_remove"} if tu == "mesh_node.cpp" else None)
+                                if any(R.callee_name(c2) == "stop" and isinstance(c2.fn, C.Member) and
+                                       re.search(r"graph|child|active|view\(\)", R.Canon()(c2.fn.obj)) for _, c2 in inner):
+                                    hop_names.add(nm)
+                fl = R.flow(run, fa)
+                hop = lambda x: x.kind == "call" and x.name in hop_names and (x.name != "stop" or re.search(r"graph|child|active|view\(\)", x.recv))
+                guard_ok = re.compile(r"more:.*|.*(!=nullptr|==nullptr|nullptr!=.*|nullptr==.*)|.*has_value\(\)|.*started\(\)|.*stop_child_on_stop|.*valid\(\)")
+                w = fl.reach([fl.start], avoid=hop, targets=lambda x: x.id == fl.cfg.exit, after_source=False,
+                             edge_skip=lambda node, lab: node.kind == "cond" and guard_ok.fullmatch(node.label) is not None and lab == "F")
+                run.count(1, f"C14.f.{tu}.unconditional")
+                if hop_names and w is not None:
+                    run.finding("C14.f", f"{tu}:{cb}:conditional", f"stop callback {cb} can return without stopping its children (guarded by a "
+                                f"condition that is not a per-child existence test): " + fl.path_text(w), loc=fl.cfg.describe(w[0][0]))
         run.sites(n, 7, "owners")
         # try_except reuses the single nested descriptor (inherits its stop callback)
         fa = R.fn(run, RT + "try_except_node.cpp", "try_except_node")
@@ -549,6 +574,7 @@ VARIANTS = [
     {"id": "e-started-before-hook", "expect": "C14.e", "edits": [{"file": NODE, "find": "            if (callbacks(context).start) { callbacks(context).start(view, evaluation_time); }\n            state.started = true;", "replace": "            state.started = true;\n            if (callbacks(context).start) { callbacks(context).start(view, evaluation_time); }"}]},
     {"id": "e-stop-no-deactivate-on-throw", "expect": "C14.e", "edits": [{"file": NODE, "find": "            auto deactivate = UnwindCleanupGuard([&] { deactivate_input_slots(view, evaluation_time); });\n            if (callbacks(context).stop) { callbacks(context).stop(view, evaluation_time); }\n            deactivate.complete();", "replace": "            if (callbacks(context).stop) { callbacks(context).stop(view, evaluation_time); }\n            deactivate_input_slots(view, evaluation_time);"}]},
     {"id": "f-reduce-stop-skips", "expect": "C14.f", "edits": [{"file": RT + "reduce_node.cpp", "find": "if (entry != nullptr && entry->graph.has_value()) { entry->graph.view().stop(); }\n            }\n            storage.evaluation_positions.clear();", "replace": "static_cast<void>(entry);\n            }\n            storage.evaluation_positions.clear();"}]},
+    {"id": "f-map-stop-guarded", "expect": "C14.f", "edits": [{"file": RT + "map_node.cpp", "find": "            remove_all_entries(view, context, storage, nullptr, nullptr,\n                               evaluation_time);\n            storage.unsubscribe_keys_noexcept();", "replace": "            if (storage.primed)\n            {\n                remove_all_entries(view, context, storage, nullptr, nullptr,\n                                   evaluation_time);\n            }\n            storage.unsubscribe_keys_noexcept();"}]},
     {"id": "f-reset-no-stop", "expect": "C14.f", "edits": [{"file": GRAPH, "find": "    if (graph.valid() && graph.started()) {\n      static_cast<void>(fallback_on_exception(false, [&] {\n        graph.stop();\n        return true;\n      }));\n    }", "replace": "    static_cast<void>(graph);"}]},
     {"id": "g-guard-after-loop", "expect": "C14.g", "edits": [{"file": EXEC, "find": "            ImmediateCycleRecorder recorder;\n            bool                   recorded_cycle = false;\n", "replace": "            ImmediateCycleRecorder recorder;\n            bool                   recorded_cycle = false;\n            state.logger->flush();\n"},
                                                                {"file": EXEC, "find": "            auto stop_graph = UnwindCleanupGuard([&] {", "replace": "            state.logger->info(\"started\");\n            auto stop_graph = UnwindCleanupGuard([&] {"}]},
